@@ -41,7 +41,7 @@ MUTANTS = [
     ("dm-occ-index", "C09", "src/pomerol/DensityMatrixPart.cpp", "S.getFockState(hpart.getBlockNumber(),fi).test(i)*", "S.getFockState(hpart.getBlockNumber(),fi).test(i>2?0:i)*"),
     ("ea-offdiag-block", "C09", "src/pomerol/EnsembleAverage.cpp", "result_part += Amatrix.coeff(index1, index1) * DMpart.getWeight(index1);", "result_part += Amatrix.coeff(index1, index1) * DMpart.getWeight(Amatrix.outerSize()-1-index1);"),
     ("fop-sign", "C10", "src/pomerol/FieldOperatorPart.cpp", "RightMat(k,m) = RealType(sign) * HFrom.getMatrixElement(k,m);", "RightMat(k,m) = RealType(sign*sign) * HFrom.getMatrixElement(k,m);"),
-    ("fop-container-sign", "C10", "src/pomerol/FieldOperatorContainer.cpp", "                c.getPartFromRightIndex(cdag_map_it->second).Status = ComputableObject::Computed;", "                if (cdag_map_it->first==2) { c.getPartFromRightIndex(cdag_map_it->second).elementsRowMajor *= -1.0; c.getPartFromRightIndex(cdag_map_it->second).elementsColMajor *= -1.0; }\n                c.getPartFromRightIndex(cdag_map_it->second).Status = ComputableObject::Computed;"),
+    ("fop-container-sign", "C10", "src/pomerol/FieldOperatorContainer.cpp", "                c.getPartFromRightIndex(cdag_map_it->second).Status = ComputableObject::Computed;", "                if (int(cdag_map_it->first)==2) { c.getPartFromRightIndex(cdag_map_it->second).elementsRowMajor *= -1.0; c.getPartFromRightIndex(cdag_map_it->second).elementsColMajor *= -1.0; }\n                c.getPartFromRightIndex(cdag_map_it->second).Status = ComputableObject::Computed;"),
     ("cplx-leftmat-conj", "C10", "src/pomerol/FieldOperatorPart.cpp", "LeftMat(n,k) = std::conj(HTo.getMatrixElement(l,n));", "LeftMat(n,k) = HTo.getMatrixElement(l,n);"),
     ("cplx-container-transpose", "C10", "src/pomerol/FieldOperatorContainer.cpp", "cdag.getPartFromRightIndex(cdag_map_it->first).getColMajorValue().adjoint();", "cdag.getPartFromRightIndex(cdag_map_it->first).getColMajorValue().transpose();"),
     ("cplx-hopping-conj", "C04", "src/pomerol/LatticePresets.cpp", "Hopping(Label2, Label1, conj(t), Orbital2, Orbital1, Spin2, Spin1)); // Hermite conjugate", "Hopping(Label2, Label1, t, Orbital2, Orbital1, Spin2, Spin1)); // Hermite conjugate"),
